@@ -191,6 +191,18 @@ Section Framed.
     - right. exists h, frame. repeat split; assumption.
   Qed.
 
+  (** the error kinds: two header-level ones, otherwise whatever the body decoder said *)
+  Theorem read_framed_malformed_cause : forall bs max e rest, read_framed body bs max = Malformed e rest ->
+    e = MalformedRemainingLength \/ e = PayloadSizeLimitExceeded \/
+    exists h frame, len frame = frame_length h /\ body h frame = Err e.
+  Proof.
+    intros bs max e rest H. pose proof (read_framed_spec bs max) as S. rewrite H in S.
+    inversion S as [| Hp | h Hp Hmax | | | h frame rest' e' Hp Hmax Hbs Hlf Hbody]; subst.
+    - left. reflexivity.
+    - right. left. reflexivity.
+    - right. right. exists h, frame. split; assumption.
+  Qed.
+
   (** (c): a declared length above the maximum is rejected at once, whatever follows the header *)
   Theorem read_framed_over_max : forall bs max h, parse_fixed_header bs = Ok h -> max < remaining_len h ->
     read_framed body bs max = Malformed PayloadSizeLimitExceeded bs.
